@@ -133,6 +133,15 @@ def FS.apply (fs : FS) : Act → FS
 
 def FS.applyAll (fs : FS) (acts : List Act) : FS := acts.foldl FS.apply fs
 
+/-- crash states: the part of an action that is on disk when the writer dies after `j` bytes of it (only an append can be cut) -/
+def Act.cut : Act → Nat → List Act
+  | .append i f bs, j => if j = 0 then [] else [.append i f (bs.take j)]
+  | _, _ => []
+
+/-- the first `k` actions and `j` bytes of the next one -/
+def crashPrefix (acts : List Act) (k j : Nat) : List Act :=
+  acts.take k ++ (match acts[k]? with | some a => a.cut j | none => [])
+
 def insertId (f : FileId) : List FileId → List FileId
   | [] => [f]
   | g :: gs => if f.lt g then f :: g :: gs else g :: insertId f gs
